@@ -599,6 +599,13 @@ pub fn check_cellsim(property: &str, tier: &str) -> i32 {
             Err(e) => harness_errors.push(json!({"what": "replay failed", "error": e})),
         }
     }
+    // vacuity guard: generated (non-attack) operations are all well-typed on the pinned tree; if the
+    // checker starts refusing a large share of them the run no longer exercises the property
+    let unexpected: u64 = rejected.iter().filter(|(k, _)| k.starts_with("UNEXPECTED ")).map(|(_, v)| *v).sum();
+    let total_ops: u64 = ops.values().sum();
+    if unexpected * 5 > total_ops.max(1) {
+        harness_errors.push(json!({"what": "more than 20% of the generated well-typed operations are rejected by the checker: workload vacuous, no verdict", "rejected": unexpected, "operations": total_ops}));
+    }
     let wall = t0.elapsed().as_secs_f64();
     let (rule, distinct) = if property == "C13" {
         (
@@ -629,6 +636,7 @@ pub fn check_cellsim(property: &str, tier: &str) -> i32 {
         "probes": probes,
         "overlapping_read_modify_write_pairs": overlapped,
         "rejected_operations": rejected,
+        "unexpectedly_rejected_operations": unexpected,
         "replayed_from_explicit_record": det,
         "boot_seeds": boots,
         "worker_processes": boots * shards,
